@@ -828,6 +828,33 @@ func (pf *ParserFacts) guardedByIdx(s SlotStore, v ssa.Value, onlyIdx int64, acc
 			return true, "guard " + string(a.kind) + " in a loop over the values, " + how + ", error exit on failure"
 		}
 	}
+	// "string" established by the data type alone also admits []string: where the data-type
+	// comparison is what is relied on, the not-a-slice edge of an IsSlice test must lie on
+	// the path as well (String = IsString, or DataType == string together with !IsSlice)
+	if acc[atomDataType] && !acc[atomSlice] {
+		usesDT := false
+		for _, a := range atoms {
+			if a.kind == atomDataType {
+				usesDT = true
+			}
+		}
+		if usesDT {
+			cut2 := map[[2]*ssa.BasicBlock]bool{}
+			for _, a := range atoms {
+				b := a.ifi.Block()
+				switch a.kind {
+				case atomString:
+					cut2[[2]*ssa.BasicBlock{b, b.Succs[a.holdsOn]}] = true
+				case atomSlice:
+					cut2[[2]*ssa.BasicBlock{b, b.Succs[1-a.holdsOn]}] = true // the edge on which the value is not a slice
+				}
+			}
+			from := defBlock(fn, v)
+			if from == target || reachableFromWithout(from, cut2, target) {
+				return false, "the value's data type is compared with string, but nothing excludes a slice of strings on that path (IsString, or the not-a-slice edge of IsSlice, is missing)"
+			}
+		}
+	}
 	if len(loopSkips) > 0 {
 		return false, "the loop that tests " + strings.Join(uniq(loopSkips), "/") + " on the elements lets some iterations reach the next element without passing the test (a continue / early branch skips it)"
 	}
